@@ -6,6 +6,10 @@ from typing import Dict, List
 from simnet.framework import Prop, Stratum
 from . import tcp_gen as tg
 from . import tcp_oracles as to
+from . import udp_gen as ug
+from . import udp_oracles as uo
+from . import clock_gen as cg
+from . import clock_oracles as co
 
 REAL_TCP = ("real: all of aioswitcher from the working tree, asyncio SelectorEventLoop core, tasks, streams, "
             "_SelectorSocketTransport, sock_connect, binascii.crc_hqx, struct; stub: FakeSocket/SimSelector/SimNet "
@@ -90,8 +94,85 @@ def c18_strata(tier: str) -> List[Stratum]:
     ]
 
 
+REAL_UDP = ("real: all of aioswitcher from the working tree (SwitcherBridge, UdpClientProtocol, DatagramParser, device "
+            "classes), asyncio SelectorEventLoop core, create_datagram_endpoint, _SelectorDatagramTransport, warnings, "
+            "logging; stub: FakeSocket/SimSelector/SimNet (UDP port table, delivery, loss/dup/reorder, socket errors), "
+            "virtual clocks, broadcast senders built on the reference encoder, the user's callback")
+
+
+def c05_strata(tier: str) -> List[Stratum]:
+    return [Stratum("broadcasts", scale(tier, 16000, 2000000), lambda r, i: ug.gen_c05(r))]
+
+
+def c06_strata(tier: str) -> List[Stratum]:
+    return [
+        Stratum("every-length", 134 * scale(tier, 1, 20), lambda r, i: ug.gen_c06(r, i, True), systematic=True,
+                note="every length 0..400 with and without the magic (802 cases, 6 per scenario)"),
+        Stratum("model-codes", scale(tier, 256, 4096), lambda r, i: ug.gen_c06_models(r, i if tier != "quick" else r.randrange(4096)),
+                systematic=(tier != "quick"), note="thorough: all 65 536 model codes; quick: 4 096 sampled"),
+        Stratum("random", scale(tier, 8000, 800000), lambda r, i: ug.gen_c06(r, i, False)),
+    ]
+
+
+def c07_strata(tier: str) -> List[Stratum]:
+    return [Stratum("traffic", scale(tier, 14000, 2000000), lambda r, i: ug.gen_c07(r))]
+
+
+def c17_strata(tier: str) -> List[Stratum]:
+    m = 4 if tier == "quick" else 6
+    n = len(ug.c17_cases(m))
+    return [
+        Stratum("all-sequences", n, lambda r, i: ug.gen_c17(r, i, m), systematic=True,
+                note="every well-behaved sequence up to length %d over {start, stop, send, occupy i, release i} on 2 ports" % m),
+        Stratum("random", scale(tier, 9000, 900000), lambda r, i: ug.gen_c17(r)),
+    ]
+
+
+REAL_CLOCK = ("real: aioswitcher.schedule.tools / parser from the working tree, libc mktime/localtime/strftime under the "
+              "chosen TZ, datetime; stub: wall clock (time_machine driven by the simulator clock), TZ per run; reference: "
+              "zoneinfo arithmetic")
+
+
+def c11_strata(tier: str) -> List[Stratum]:
+    return [
+        Stratum("sampled-minutes", scale(tier, 3000, 60000), lambda r, i: cg.gen_c11(r, False)),
+        Stratum("all-minutes", scale(tier, 150, 20000), lambda r, i: cg.gen_c11(r, True)),
+    ]
+
+
+def c13_strata(tier: str) -> List[Stratum]:
+    return [Stratum("grid", scale(tier, 12000, 1500000), lambda r, i: cg.gen_c13(r))]
+
+
 def build() -> Dict[str, Prop]:
     P: Dict[str, Prop] = {}
+    P["C11"] = Prop("C11", "exploration", co.judge_c11, c11_strata,
+                    "seeded (zone, instant) pairs over 24 zones, instants biased to DST transitions/year ends/leap days/local "
+                    "midnight, with clock jumps between batches; 96 or all 1440 HH:MM encoded and decoded under the virtual clock",
+                    REAL_CLOCK, ["probe:ambiguous-local-time", "grey:nonexistent-local-time", "judged-must-reject"])
+    P["C13"] = Prop("C13", "exploration", co.judge_c13, c13_strata,
+                    "seeded (zone, instant) x all 128 day sets x start minutes around now/00:00/23:59, clock steps and jumps "
+                    "between queries; text parsed and compared with a zoneinfo-based reference",
+                    REAL_CLOCK, ["probe:local-weekday-differs-from-utc", "probe:full-week-ahead", "probe:sunday-to-monday"])
+    P["C05"] = Prop("C05", "exploration", uo.judge_c05, c05_strata,
+                    "seeded device states of all 9 types encoded by the reference broadcast encoder (checked against the "
+                    "real captures), sent through the fake network with delay/dup/reorder/drop to a running bridge; every "
+                    "delivered object compared field by field",
+                    REAL_UDP, ["probe:off-normalisation", "probe:type:BREEZE", "probe:type:RUNNER", "probe:type:POWER_PLUG"])
+    P["C06"] = Prop("C06", "exploration", uo.judge_c06, c06_strata,
+                    "every length 0..400 with/without magic, sampled or all model codes in valid frames, random junk; datagrams "
+                    "spaced apart so callbacks, warnings, log records and loop-exception calls are attributable",
+                    REAL_UDP, ["judged-gate-fail", "judged-unknown-model", "probe:right-length-wrong-magic", "probe:magic-wrong-length"])
+    P["C07"] = Prop("C07", "exploration", uo.judge_c07, c07_strata,
+                    "seeded datagram sequences (valid of every family + six junk kinds) on 1-4 ports with drop/dup/reorder/"
+                    "receive-queue overflow/socket errors and callbacks raising on chosen invocations; callback log must be an "
+                    "interleaving of the per-port arrival logs",
+                    REAL_UDP, ["probe:callback-raised", "probe:duplicate-arrival", "probe:reordered-pair",
+                               "probe:junk-between-valid", "probe:socket-error", "probe:multi-port"])
+    P["C17"] = Prop("C17", "exploration", uo.judge_c17, c17_strata,
+                    "all short start/stop/send/occupy/release sequences on 2 ports + seeded random ones on 1-4 ports, with "
+                    "datagrams in flight or queued at stop; running flag and port table vs lifecycle model after every action",
+                    REAL_UDP, ["probe:start-with-busy-port", "probe:restart", "probe:stop-while-stopped"])
     P["C01"] = Prop("C01", "exploration", to.judge_c01, c01_strata,
                     "seeded random operation sequences (all 15 op kinds, both API types, 1-2 clients) against device models; "
                     "every application write seen at the fake socket is judged as one frame",
